@@ -162,80 +162,92 @@ def rule_P2(ctx):
     ctx.ob("P2", fn, "pairing is decided on the sample's export name", ok, "", inst="match-on-name")
     if not alts:
         return
-    # concrete case analysis over group(3)
-    folder = ctx.folder
-    mod = fn._module
-    stmts = {}
-    for a in own_nodes(fn):
-        if isinstance(a, ast.Assign) and len(a.targets) == 1 and isinstance(a.targets[0], ast.Name):
-            stmts.setdefault(a.targets[0].id, []).append(a)
-    comb = [c for c in own_nodes(fn) if isinstance(c, ast.Call) and norm(c.func) == "combine_stereo"]
-    if len(comb) != 1:
-        raise AnalysisError("P2", where(fn), "combine_stereo call not found")
+    # concrete case analysis over group(3): interpret the loop body with the visited sample and its partner as opaque symbols
+    from .sem import Mini, Sym
+    fors = [f for f in own_nodes(fn) if isinstance(f, ast.For)]
+    if len(fors) != 1:
+        raise AnalysisError("P2", where(fn), "pairing loop not found")
+    loop = fors[0]
+    lv = loop.target.id
     for g3 in sorted(alts):
-        env = {"match.group(3)": g3}
-        try:
-            ae = stmts["alternate_ending"][0].value
-            alt_end = folder.ev(_Subst(env).visit(copy.deepcopy(ae)), mod)
-        except (KeyError, NotConst) as e:
-            ctx.ob("P2", fn, "the partner's suffix is computed from this sample's suffix", False, f"cannot evaluate: {e}", inst=f"alt-ending:{g3}")
+        def special(node, interp):
+            if isinstance(node, ast.Subscript) and isinstance(node.value, ast.Name) and node.value.id not in interp.env \
+                    and any(isinstance(a, ast.Assign) and isinstance(a.value, ast.DictComp) and norm(a.targets[0]) == node.value.id
+                            and norm(a.value.key).endswith(".export_name") for a in own_nodes(fn)):
+                return Sym("PARTNER")
+            return None
+
+        def assume(text):
+            if text.startswith("marked[") or (text.split("[")[0] in ("marked",)):
+                return False
+            return True
+
+        mi = Mini(ctx, fn._module, env={"match.group(3)": g3, "match.group(1)": "STEM", "match.group(2)": "-", lv: Sym("VISITED"),
+                                          f"{lv}.export_name": "STEM-" + g3}, assume=assume, special=special)
+        mi.run(loop.body)
+        combos = [(args, kw) for ft, args, kw, node in mi.calls if ft == "combine_stereo"]
+        other = "R" if g3 == "L" else "L"
+        if len(combos) != 1:
+            ctx.ob("P2", loop, f"a sample ending in {g3} whose partner exists is combined exactly once", False, f"{len(combos)} combine_stereo calls on the pairing path", inst=f"orientation:{g3}")
             continue
-        want_alt = "R" if g3 == "L" else "L"
-        ctx.ob("P2", stmts["alternate_ending"][0], f"for a sample ending in {g3} the partner ends in {want_alt}", alt_end == want_alt, f"computed {alt_end!r}", inst=f"alt-ending:{g3}")
-        # which list literal reaches `pairs` ?
-        first = None
-        pair_assigns = stmts.get("pairs", [])
-        for pa in pair_assigns:
-            holder = pa._parent
-            if isinstance(holder, ast.If):
-                try:
-                    cond = folder.ev(_Subst({"alternate_ending": alt_end}).visit(copy.deepcopy(holder.test)), mod)
-                except NotConst:
-                    cond = None
-                in_body = any(pa is s for s in holder.body)
-                if cond is not None and bool(cond) == in_body:
-                    first = pa
-            else:
-                first = pa
-        a0, a1 = comb[0].args[0], comb[0].args[1]
-        left = right = None
-        if first is not None and isinstance(first.value, (ast.List, ast.Tuple)) and len(first.value.elts) == 2 and norm(a0) == "pairs[0]" and norm(a1) == "pairs[1]":
-            left, right = norm(first.value.elts[0]), norm(first.value.elts[1])
-        elif norm(a0) in ("sample", "alternate_sample"):
-            left, right = norm(a0), norm(a1)
-        want_left = "sample" if g3 == "L" else "alternate_sample"
-        want_right = "alternate_sample" if g3 == "L" else "sample"
-        ok = left == want_left and right == want_right
-        ctx.ob("P2", comb[0], f"when the visited sample ends in {g3}, combine_stereo(left, right) receives the L sample first", ok,
-               "" if ok else f"left={left}, right={right}: channel 0 would carry the {'R' if g3 == 'L' else 'L'}... wrong half for some directory order",
-               inst=f"orientation:{g3}")
-    an = stmts.get("alternate_name", [])
-    ok = len(an) == 1 and norm(an[0].value) == "''.join((match.group(1), match.group(2), alternate_ending))"
-    ctx.ob("P2", an[0] if an else fn, "the partner's name = stem + same separator + other suffix", ok, "", inst="alternate-name")
-    nn = stmts.get("new_name", [])
-    ok = len(nn) == 1 and norm(nn[0].value) == "match.group(1)" and norm(comb[0].args[2]) == "new_name"
-    ctx.ob("P2", nn[0] if nn else fn, "the merged file is named after the common stem", ok, "", inst="stem-name")
+        args, kw = combos[0]
+        left = args[0] if len(args) > 0 else kw.get("left")
+        right = args[1] if len(args) > 1 else kw.get("right")
+        newn = args[2] if len(args) > 2 else kw.get("new_name")
+        want = ("VISITED", "PARTNER") if g3 == "L" else ("PARTNER", "VISITED")
+        ok = (str(left), str(right)) == want
+        ctx.ob("P2", loop, f"when the visited sample ends in {g3}, combine_stereo(left, right) receives the L sample first", ok,
+               "" if ok else f"left={left!r}, right={right!r}: channel 0 would carry the R sample for some directory order", inst=f"orientation:{g3}")
+        ok = newn == "STEM"
+        ctx.ob("P2", loop, "the merged file is named after the common stem (group 1)", ok, f"new name {newn!r}", inst=f"stem-name:{g3}")
+        # the partner looked up is stem + same separator + other suffix
+        looked = [mi.env.get(k) for k in ("alternate_name",) if k in mi.env]
+        partner_keys = []
+        for ft, args2, kw2, node in mi.calls:
+            pass
+        # evaluate the subscript key of the index lookup on this path
+        keys = []
+        for n in ast.walk(loop):
+            if isinstance(n, ast.Subscript) and isinstance(n.value, ast.Name) and special(n, mi) is not None and isinstance(n.ctx, ast.Load):
+                keys.append(Mini.ev(Mini(ctx, fn._module, env=mi.env), n.slice))
+        ok = bool(keys) and all(k == "STEM-" + other for k in keys)
+        ctx.ob("P2", loop, f"for a sample ending in {g3} the partner looked up is stem + same separator + {other}", ok, f"looked up {keys}", inst=f"alt-name:{g3}")
 
 
 # ------------------------------------------------------------------------ P3
 def rule_P3(ctx):
+    from .sem import grow_events, local_function
     fn = ctx.fn("smpl_extract/generalized/sample.py", "combine_stereo", "P3")
     l, r = fn.args.args[0].arg, fn.args.args[1].arg
-    t = full(fn)
-    aug = [a for a in own_nodes(fn) if isinstance(a, ast.AugAssign) and norm(a.target) == "result.data_streams"]
-    ok = len(aug) == 1 and isinstance(aug[0].op, ast.Add) and norm(aug[0].value) == f"{r}.data_streams"
-    ctx.ob("P3", fn, "combined streams = left's streams followed by right's streams", ok, "", inst="stream-order")
-    dc = [c for c in own_nodes(fn) if isinstance(c, ast.Call) and norm(c.func) == "dict"]
-    ok = f"getattr({l}, field.name)" in t and f"fields({l})" in t and "copy.copy(" in t
+    # the data stream list of the result: left's streams followed by right's
+    ev = [(n, k, v) for n, k, v in grow_events(fn, "result.data_streams")]
+    asg = [a for a in own_nodes(fn) if isinstance(a, ast.Assign) and len(a.targets) == 1 and norm(a.targets[0]) == "result.data_streams"]
+    ok = False
+    det = "no statement adds the right sample's streams after the left's"
+    if len(ev) == 1 and ev[0][1] in ("iadd", "extend", "concat") and norm(ev[0][2]) in (f"{r}.data_streams", f"list({r}.data_streams)"):
+        ok, det = True, ""
+    elif len(ev) == 1:
+        det = f"`{norm(ev[0][0])}` does not append the right streams after the left ones"
+    for a in asg:
+        if norm(a.value) in (f"{l}.data_streams + {r}.data_streams", f"list({l}.data_streams) + list({r}.data_streams)", f"[*{l}.data_streams, *{r}.data_streams]"):
+            ok, det = True, ""
+    ctx.ob("P3", fn, "combined streams = left's streams followed by right's streams", ok, det, inst="stream-order")
+    # the result is built from the left sample's fields through a shallow copy (left's own list is not extended)
+    texts = [full(fn)]
+    for c in own_nodes(fn):
+        if isinstance(c, ast.Call) and isinstance(c.func, ast.Name) and any(norm(a) == l for a in c.args):
+            h = local_function(ctx, fn._module, c.func.id)
+            if h is not None:
+                texts.append(full(h))
+    t = " ".join(texts)
+    ok = ("copy.copy(" in t or "copy(" in t) and "fields(" in t and any(isinstance(c, ast.Call) and norm(c.func) == "Sample" and any(k.arg is None for k in c.keywords) for c in own_nodes(fn))
     ctx.ob("P3", fn, "the result starts as a shallow copy of every field of the left sample (its stream list is a new list)", ok, "", inst="copy-left")
-    asg = {norm(a.targets[0]): norm(a.value) for a in own_nodes(fn) if isinstance(a, ast.Assign) and len(a.targets) == 1}
-    ok = asg.get("result.num_channels") == "len(result.data_streams)" and asg.get("result.channel_config") == "ChannelConfig.STEREO_SPLIT_STREAMS"
+    asg2 = {norm(a.targets[0]): (norm(a.value), a.lineno) for a in own_nodes(fn) if isinstance(a, ast.Assign) and len(a.targets) == 1}
+    ok = asg2.get("result.num_channels", ("", 0))[0] == "len(result.data_streams)" and asg2.get("result.channel_config", ("", 0))[0] == "ChannelConfig.STEREO_SPLIT_STREAMS"
     ctx.ob("P3", fn, "channel count = number of combined streams", ok, "", inst="num-channels")
-    # order: += before num_channels
-    if aug:
-        nc = [a for a in own_nodes(fn) if isinstance(a, ast.Assign) and norm(a.targets[0]) == "result.num_channels"]
-        ok = bool(nc) and nc[0].lineno > aug[0].lineno
-        ctx.ob("P3", fn, "the channel count is taken after the right streams were added", ok, "", inst="count-after-add")
+    add_line = max([n.lineno for n, k, v in ev] + [a.lineno for a in asg] + [0])
+    ok = asg2.get("result.num_channels", ("", 0))[1] > add_line > 0
+    ctx.ob("P3", fn, "the channel count is taken after the right streams were added", ok, "", inst="count-after-add")
 
 
 # ------------------------------------------------------------------------ P4
@@ -382,14 +394,19 @@ def rule_P5(ctx):
     ok = bool(prs) and all(p.env.get("self.frame_size") == A("self.encoding.num_interleaved_channels") * A("self.encoding.sample_width") for p in prs)
     ctx.ob("P5", pi, "frame_size = interleaved channels * sample width", ok, "", inst="frame_size")
     # block sizing
+    from .sem import return_canons
     gn = ctx.fn(TR, "get_num_frames_possible", "P5")
-    prs = [p for p in run_paths(ctx, gn, rule="P5") if p.end == "return"]
-    ok = bool(prs) and all(p.ret is not None and p.ret.key() == f"max(1,floordiv({gn.args.args[1].arg},{gn.args.args[0].arg}.frame_size))" for p in prs)
-    ctx.ob("P5", gn, "frames per block = max(1, target // frame_size)", ok, f"{[p.ret.key() for p in prs if p.ret]}", inst="frames-possible")
+    rc = return_canons(gn)
+    a0, a1 = gn.args.args[0].arg, gn.args.args[1].arg
+    ok = rc in ([f"max(1, {a1} // {a0}.frame_size)"], [f"max({a1} // {a0}.frame_size, 1)"])
+    ctx.ob("P5", gn, "frames per block = max(1, target // frame_size)", ok, f"{rc}", inst="frames-possible")
     gb = ctx.fn(TR, "get_buffer_sizes", "P5")
-    t = full(gb)
-    ok = "min(list((get_num_frames_possible(x) for x in streams)))" in t and "list((num_frames * x.frame_size for x in streams))" in t
-    ctx.ob("P5", gb, "every stream reads the same number of frames per block (the minimum), i.e. num_frames * its frame size", ok, "", inst="buffer-sizes")
+    rc = return_canons(gb)
+    sv = gb.args.args[0].arg
+    ok = rc in ([f"[min([get_num_frames_possible(_c1) for _c1 in {sv}]) * _c0.frame_size for _c0 in {sv}]"],
+                [f"[_c0.frame_size * min([get_num_frames_possible(_c1) for _c1 in {sv}]) for _c0 in {sv}]"],
+                [f"[min((get_num_frames_possible(_c1) for _c1 in {sv})) * _c0.frame_size for _c0 in {sv}]"])
+    ctx.ob("P5", gb, "every stream reads the same number of frames per block (the minimum), i.e. num_frames * its frame size", ok, f"{rc}", inst="buffer-sizes")
     mt = ctx.fn(TR, "make_transcoder", "P5")
     bs = [a for a in own_nodes(mt) if isinstance(a, ast.Assign) and norm(a.targets[0]) == "buffer_sizes"]
     ok = len(bs) == 1 and norm(bs[0].value) == f"get_buffer_sizes({mt.args.args[0].arg})"
@@ -434,9 +451,13 @@ def rule_P5(ctx):
     ctx.ob("P5", ifs[0] if ifs else df, "a stream counts as exhausted only when its (trimmed) block is empty", ok,
            "" if ok else f"end-of-data test is `{norm(ifs[0].test) if ifs else '?'}`: a final block holding data is discarded", inst="decode-eod")
     if ifs:
-        z = [c for c in ast.walk(ifs[0]) if isinstance(c, ast.Call) and norm(c.func) == "channels.append"]
-        ok = len(z) == 1 and norm(z[0].args[0]) == "np.zeros(0, dtype=dtype)" and any(isinstance(f, ast.For) and norm(f.iter) == "range(num_channels)" for f in ast.walk(ifs[0]))
-        ctx.ob("P5", ifs[0], "an exhausted stream contributes one empty channel per interleaved channel (keeps channel positions)", ok, "", inst="decode-eod-empties")
+        from .sem import grow_events
+        body_t = " ".join(full(st) for st in ifs[0].body)
+        grows = [(n, k, v) for st in ifs[0].body for n, k, v in grow_events(st, "channels")]
+        ok = len(grows) == 1 and "np.zeros(0, dtype=dtype)" in body_t and ("range(num_channels)" in body_t or "* num_channels" in body_t) \
+            and grows[0][1] in ("append", "extend", "iadd")
+        ctx.ob("P5", ifs[0], "an exhausted stream contributes one empty channel per interleaved channel (keeps channel positions)", ok,
+               "" if ok else f"on exhaustion `channels` grows by {[norm(g[0])[:60] for g in grows]}", inst="decode-eod-empties")
 
 
 # ------------------------------------------------------------------------ P6
@@ -448,27 +469,51 @@ def rule_P6(ctx):
     ok = len(rets) == 1 and norm(rets[0].value) in idioms
     ctx.ob("P6", ef, "encode_frame interleaves frame by frame: channel c of frame f lands at position f*channels + c", ok,
            "" if ok else f"interleave expression `{norm(rets[0].value) if rets else '?'}` is not a recognised frame-major interleave", inst="interleave")
-    asg = [norm(a.value) for a in own_nodes(ef) if isinstance(a, ast.Assign) and norm(a.targets[0]) == "channels"]
-    ok = "pad_channels(channels)" in asg and "list((x.astype(dest_dtype) for x in channels))" in asg
+    asgs = sorted([a for a in own_nodes(ef) if isinstance(a, ast.Assign) and norm(a.targets[0]) == "channels"], key=lambda a: a.lineno)
+    asg = [norm(a.value) for a in asgs]
+    casts = [i for i, a in enumerate(asgs) if isinstance(a.value, (ast.ListComp, ast.Call)) and ".astype(dest_dtype)" in norm(a.value) and "for" in norm(a.value) and "in channels" in norm(a.value)]
+    pads = [i for i, a in enumerate(asgs) if norm(a.value) == "pad_channels(channels)"]
+    ok = len(casts) == 1 and len(pads) == 1 and pads[0] < casts[0]
     ctx.ob("P6", ef, "channels are padded to a common length and cast to the destination sample type, in order", ok, f"{asg}", inst="pad-cast")
     df = ctx.fn(TR, "decode_frame", "P6")
     t = full(df)
     ok = "samples_interleaved.reshape((-1, num_channels)).T" in t
     ctx.ob("P6", df, "decode_frame de-interleaves with reshape((-1, channels)).T (row c = channel c)", ok, "", inst="deinterleave")
-    aug = [a for a in own_nodes(df) if isinstance(a, ast.AugAssign) and norm(a.target) == "channels" and isinstance(a.op, ast.Add)]
-    ok = len(aug) == 1 and norm(aug[0].value) == "samples"
-    ctx.ob("P6", df, "the channels of each stream are appended in stream order", ok, "", inst="append-order")
+    from .sem import grow_events
     fr = [f for f in own_nodes(df) if isinstance(f, ast.For)]
-    ok = any(norm(f.iter) == "zip(streams, buffer_sizes)" for f in fr)
+    zl = [f for f in fr if norm(f.iter) == "zip(streams, buffer_sizes)"]
+    grows = list(grow_events(df, "channels"))
+    inside = zl and all(any(n is g[0] for n in ast.walk(zl[0])) for g in grows)
+    ok = bool(grows) and bool(inside) and all(g[1] in ("append", "extend", "iadd", "concat") for g in grows)
+    ctx.ob("P6", df, "the channels of each stream are appended (never prepended/inserted) inside the loop over the streams, i.e. in stream order", ok,
+           "" if ok else f"{[(g[1], norm(g[0])[:50]) for g in grows]}", inst="append-order")
+    ok = bool(zl)
     ctx.ob("P6", df, "streams are read in order, each with its own block size", ok, "", inst="zip-streams")
     ok = "np.frombuffer(buffer, dtype=dtype)" in t and "dtype = stream.encoding.dtype" in t and "num_channels = max(1, stream.encoding.num_interleaved_channels)" in t
     ctx.ob("P6", df, "bytes are interpreted with the stream's own sample type and channel count", ok, "", inst="dtype")
     pc = ctx.fn(TR, "pad_channels", "P6")
-    t = full(pc)
-    ok = "target_size = max(map(len, channels))" in t and "N = target_size - len(channel)" in t and "np.pad(channel, (0, N)" in t
-    apps = [c for c in own_nodes(pc) if isinstance(c, ast.Call) and norm(c.func) == "result_channels.append"]
-    ok = ok and len(apps) == 2 and sorted(norm(c.args[0]) for c in apps) == ["channel", "padded_channel"]
-    ctx.ob("P6", pc, "shorter channels are padded at the END up to the longest; existing frames are kept in place", ok, "", inst="pad")
+    from .sem import local_function, canon_expr
+    fns = [pc]
+    for c in own_nodes(pc):
+        if isinstance(c, ast.Call) and isinstance(c.func, ast.Name):
+            h = local_function(ctx, pc._module, c.func.id)
+            if h is not None and h is not pc:
+                fns.append(h)
+    pads = [c for f in fns for c in own_nodes(f) if isinstance(c, ast.Call) and norm(c.func) == "np.pad"]
+    ok = len(pads) == 1
+    det = "np.pad call not found"
+    if ok:
+        f = [f for f in fns if any(n is pads[0] for n in ast.walk(f))][0]
+        width = canon_expr(f, pads[0].args[1]) if len(pads[0].args) > 1 else ""
+        import re as _re
+        ok = bool(_re.match(r"^\(0, (.+) - len\(channel\)\)$", width)) and canon_expr(f, pads[0].args[0]) == "channel"
+        det = "" if ok else f"pad widths `{width}`: frames must only be added after the existing ones"
+    t = " ".join(full(f) for f in fns)
+    ok = ok and ("max(map(len, channels))" in t or "max((len(" in t)
+    ctx.ob("P6", pc, "shorter channels are padded at the END up to the longest; existing frames are kept in place", ok, det, inst="pad")
+    fl = [f for f in own_nodes(pc) if isinstance(f, ast.For) and norm(f.iter) == "channels"]
+    ok = len(fl) == 1 and not any(isinstance(n, ast.Break) for n in ast.walk(fl[0]))
+    ctx.ob("P6", pc, "every channel is kept, in order", ok, "", inst="pad-all")
     # dtype table
     dt = ctx.fn("smpl_extract/data_streams.py", "StreamEncoding.dtype", "P6")
     dicts = [d for d in own_nodes(dt) if isinstance(d, ast.Dict)]
@@ -494,7 +539,7 @@ def rule_P7(ctx):
     ok = len(sl) == 1 and norm(sl[0].args[0]) == "tuple(self.path)"
     ctx.ob("P7", ex, "the level is identified by the directory's path", ok, "", inst="level-id")
     fors = [f for f in own_nodes(ex) if isinstance(f, ast.For)]
-    ok = len(fors) == 1 and norm(fors[0].iter) in ("children", "self.children")
+    ok = len(fors) == 1 and norm(fors[0].iter) in ("children", "self.children") and not any(isinstance(n, (ast.Break, ast.Return)) for n in ast.walk(fors[0]))
     ctx.ob("P7", ex, "every child of the directory is visited", ok, "", inst="visit-children")
     if ok:
         lp = cfg.loop_of(fors[0])
@@ -503,22 +548,39 @@ def rule_P7(ctx):
             if kind != "back":
                 continue
             pr = _walk(ctx, ex, cfg, path)
-            conds = [(c, t) for c, t, _ in pr.conds]
-            calls = [norm(c.func) for c, e, s in calls_on(pr)]
-            is_sample = any(t and "ElementTypes.SampleEntry" in c for c, t in conds)
-            is_dir = any(t and c.startswith("truthy(isinstance(") for c, t in conds)
+            calls = [(norm(c.func), c, e) for c, e, s in calls_on(pr)]
+            names = [n for n, c, e in calls]
+            # classify the path by the truth of `child.type_id == SampleEntry` and `isinstance(child, Traversable)`
+            is_sample = is_not_sample = is_dir = is_not_dir = False
+            for ctext, taken, node in pr.conds:
+                if "type_id" in ctext and "SampleEntry" in ctext:
+                    eq = ctext.endswith("== 0")
+                    if (eq and taken) or ((not eq) and not taken):
+                        is_sample = True
+                    else:
+                        is_not_sample = True
+                if ctext.startswith("truthy(isinstance(") and "Traversable" in ctext:
+                    if taken:
+                        is_dir = True
+                    else:
+                        is_not_dir = True
+            gens = [n for n in names if n.endswith(".to_generalized")]
+            adds = [(n, c, e) for n, c, e in calls if n == f"{em}.add_sample"]
+            recs = [n for n in names if n.endswith(".export_samples")]
             if is_sample:
-                ok = calls.count(f"{cv}.to_generalized") == 1 and calls.count(f"{em}.add_sample") == 1
-                ctx.ob("P7", fors[0], "a sample child is generalised and handed to the exporter exactly once", ok, f"{calls}", inst="sample-child")
-            elif is_dir:
-                ok = calls.count(f"{cv}.export_samples") == 1
-                ctx.ob("P7", fors[0], "a directory child is exported recursively", ok, f"{calls}", inst="dir-child")
-        t = full(fors[0])
-        ok = f"if {cv}.type_id == ElementTypes.SampleEntry" in t and f"elif isinstance({cv}, Traversable)" in t
-        ctx.ob("P7", fors[0], "children are dispatched on SampleEntry / Traversable", ok, "", inst="dispatch")
-        ok = any(isinstance(a, ast.Assign) and norm(a) == f"sample = {cv}.to_generalized()" for a in ast.walk(fors[0])) and \
-            any(isinstance(c, ast.Call) and norm(c) == f"{em}.add_sample(sample)" for c in ast.walk(fors[0]))
-        ctx.ob("P7", fors[0], "what is handed over is the generalised sample of that child", ok, "", inst="handover")
+                ok = len(gens) == 1 and len(adds) == 1 and not recs
+                det = f"{names}"
+                if ok:
+                    arg = evaluator(ctx, ex, adds[0][2]).ev(adds[0][1].args[0]).key()
+                    ok = arg.endswith(".to_generalized()") and cv in arg
+                    det = "" if ok else f"the object handed over is `{arg}`"
+                ctx.ob("P7", fors[0], "a sample child is generalised and that generalised sample is handed to the exporter exactly once", ok, det, inst="sample-child")
+            elif is_not_sample and is_dir:
+                ok = len(recs) == 1 and not adds
+                ctx.ob("P7", fors[0], "a directory child is exported recursively", ok, f"{names}", inst="dir-child")
+            elif is_not_sample and is_not_dir:
+                ok = not adds and not recs
+                ctx.ob("P7", fors[0], "other children are ignored", ok, f"{names}", inst="other-child")
     # order: recursion into subdirectories happens before this level is flushed and set_level clears the list:
     mg = ST
     add = ctx.fn(mg, "ExportManager.add_sample", "P7")
@@ -528,10 +590,11 @@ def rule_P7(ctx):
     es = ctx.fn(mg, "ExportManager.export_samples", "P7")
     ecfg = ctx.cfg(es, "P7")
     fors = sorted([f for f in own_nodes(es) if isinstance(f, ast.For)], key=lambda f: f.lineno)
-    ok = len(fors) == 2 and norm(fors[0].iter) == "self.routines.values()" and norm(fors[1].iter) == "samples" \
-        and any(isinstance(a, ast.Assign) and norm(a) == f"samples = {fors[0].target.id}(samples)" for a in ast.walk(fors[0]))
+    v = norm(fors[1].iter) if len(fors) == 2 else "?"
+    ok = len(fors) == 2 and norm(fors[0].iter) == "self.routines.values()" and isinstance(fors[1].iter, ast.Name) \
+        and any(isinstance(a, ast.Assign) and norm(a) == f"{v} = {fors[0].target.id}({v})" for a in ast.walk(fors[0]))
     ctx.ob("P7", es, "sample routines (stereo pairing) are applied to the level's samples, then every resulting sample is exported", ok, "", inst="routines-then-export")
-    init = [a for a in own_nodes(es) if isinstance(a, ast.Assign) and norm(a) == "samples = self.samples"]
+    init = [a for a in own_nodes(es) if isinstance(a, ast.Assign) and norm(a) == f"{v} = self.samples" and a.lineno < fors[0].lineno] if len(fors) == 2 else []
     ctx.ob("P7", es, "the exported list starts as the level's collected samples", len(init) == 1, "", inst="samples-init")
     if len(fors) == 2:
         lp = ecfg.loop_of(fors[1])
